@@ -287,7 +287,7 @@ func c17RbfCloseOptions(r *an.Run) {
 	p := r.Prog
 	cc := "lnwallet/chancloser."
 	r.Obl("rbf-proposal-and-completion-same-options", "MIRROR",
-		"the non-musig close options (sequence, lock time, fee payer) handed to CreateCloseProposal in LocalCloseStart equal those handed to CompleteCooperativeClose in LocalOfferSent, name the local party as payer and carry as lock time the very term LocalCloseStart announces in closing_complete.LockTime, which is a field of the environment both states receive and neither writes; RemoteCloseStart hands one option list, naming the remote party as payer and the lock time of the peer's message, to both createLocalCloseeSignature (whose CreateCloseProposal receives exactly that list) and CompleteCooperativeClose; the scripts and the fee of the two halves agree as well; each option list is built only from option constructor calls (one per kind, on every path to its use) plus the musig options returned by ProposalClosingOpts / prepareClosingSignatures (nil or those of CombineClosingOpts), is used for nothing else, and is not written once it was handed to the signing or the completing call; the one option placed on some paths only is the closee's omission of the closer's output: it is placed by one append under exactly one condition beyond those of the list, a local defined once as `!(no-closee-output result of extractSigAndNonceFromClosingComplete) && parseSigFields(..).CloserAndClosee.IsNone()`, both taken from the message the fee is read from; that test lies on every path to the signing and the completing call and, when it holds, the option is placed before either",
+		"the non-musig close options (sequence, lock time, fee payer, script dust limits) handed to CreateCloseProposal in LocalCloseStart equal those handed to CompleteCooperativeClose in LocalOfferSent, name the local party as payer, select the dust limits of the delivery scripts (the basis the labels of closing_complete and closing_sig are decided on) and carry as lock time the very term LocalCloseStart announces in closing_complete.LockTime, which is a field of the environment both states receive and neither writes; RemoteCloseStart hands one option list, naming the remote party as payer, the lock time of the peer's message and the script dust limits, to both createLocalCloseeSignature (whose CreateCloseProposal receives exactly that list) and CompleteCooperativeClose; the scripts and the fee of the two halves agree as well; each option list is built only from option constructor calls (one per kind, on every path to its use) plus the musig options returned by ProposalClosingOpts / prepareClosingSignatures (nil or those of CombineClosingOpts), is used for nothing else, and is not written once it was handed to the signing or the completing call; the one option placed on some paths only is the closee's omission of the closer's output: it is placed by one append under exactly one condition beyond those of the list, a local defined once as `!(no-closee-output result of extractSigAndNonceFromClosingComplete) && parseSigFields(..).CloserAndClosee.IsNone()`, both taken from the message the fee is read from; that test lies on every path to the signing and the completing call and, when it holds, the option is placed before either",
 		"completing with another payer, sequence, lock time or set of outputs than was signed (or than the peer was told) rebuilds a different transaction: the peer's signature does not verify, or the fee is charged to the wrong party", 6,
 		func(o *an.Obl) {
 			start := p.Func(cc + "LocalCloseStart.ProcessEvent")
@@ -334,8 +334,8 @@ func c17RbfCloseOptions(r *an.Run) {
 				closerLock := func(f *an.Func, e ast.Expr) bool {
 					return announced != "" && f.Canon(e) == announced
 				}
-				want := map[string]an.Term{"WithCustomSequence": seqTerm, "WithCustomPayer": payerIs("Local"), "WithCustomLockTime": closerLock}
-				desc := map[string]string{"WithCustomSequence": "the RBF sequence", "WithCustomPayer": "the local party as fee payer", "WithCustomLockTime": "the lock time announced in closing_complete"}
+				want := map[string]an.Term{"WithCustomSequence": seqTerm, "WithCustomPayer": payerIs("Local"), "WithCustomLockTime": closerLock, "WithScriptDustLimits": nil}
+				desc := map[string]string{"WithCustomSequence": "the RBF sequence", "WithCustomPayer": "the local party as fee payer", "WithCustomLockTime": "the lock time announced in closing_complete", "WithScriptDustLimits": "the script dust limits (the basis of the output labels of closing_complete)"}
 				c17RbfOptionKinds(o, start, la, prop[0].Where(), want, desc)
 				c17RbfOptionKinds(o, sent, lb, comp[0].Where(), want, desc)
 				if announced != "" {
@@ -432,8 +432,8 @@ func c17RbfCloseOptions(r *an.Run) {
 						an.TypeID(f.Info().TypeOf(ai)) == cc+"OfferReceivedEvent"
 				}
 				c17RbfOptionKinds(o, rem, lr, rc[0].Where(),
-					map[string]an.Term{"WithCustomSequence": seqTerm, "WithCustomPayer": payerIs("Remote"), "WithCustomLockTime": lockTerm, "WithOmittedRemoteCloseOutput": nil},
-					map[string]string{"WithCustomSequence": "the RBF sequence", "WithCustomPayer": "the remote party as fee payer", "WithCustomLockTime": "the lock time of the peer's message", "WithOmittedRemoteCloseOutput": "the omission of the closer's output (placed when the peer signed closee_output_only)"})
+					map[string]an.Term{"WithCustomSequence": seqTerm, "WithCustomPayer": payerIs("Remote"), "WithCustomLockTime": lockTerm, "WithOmittedRemoteCloseOutput": nil, "WithScriptDustLimits": nil},
+					map[string]string{"WithCustomSequence": "the RBF sequence", "WithCustomPayer": "the remote party as fee payer", "WithCustomLockTime": "the lock time of the peer's message", "WithOmittedRemoteCloseOutput": "the omission of the closer's output (placed when the peer signed closee_output_only)", "WithScriptDustLimits": "the script dust limits (the basis the closer labelled its signature on)"})
 				c17RbfCloseeOmission(o, rem, lr, closeeHalves, feeArg)
 				// the helper forwards exactly its parameters
 				a := helper.ArgCanon(hp[0])
